@@ -588,6 +588,9 @@ def run(pm, ctx):
                          'each runtime refusal (ValidationError / AssertionError raise) happens '
                          'under the condition confirmed on the reference tree', 'raised')
 
+    ctx.import_rules(pm, 'C02', {'C02-R12'}, 'C08-R11',
+                     'the unwrap helpers of the IR peel exactly the wrappers their names say '
+                     '(shared with C02-R12)')
     from ..effects import run_decisions
     from ..ownership import OWN
     run_decisions(pm, ctx, 'C08-RD', OWN['C08'])
